@@ -15,6 +15,45 @@ def build_ping_sweep(c, P):
     return [0x80 | op, L] + head + mid + tail + list(bytes.fromhex(P.get('suffix', '')))
 
 
+LONG_LENS = [0, 1, 125, 126, 127, 255, 256, 65535, 65536, 65537]
+
+
+def build_long_frame(c, P):
+    """one data frame whose payload length comes from a boundary grid (solver variable) in every legal length FORM
+    (7-bit, 16-bit, 64-bit incl. non-minimal encodings); symbolic content at both ends; then a small Text frame"""
+    lens = P.get('long_lens', LONG_LENS)
+    L = lens[c.choose(len(lens), 'L')]
+    forms = ['64bit', '16bit', '7bit']
+    forms = [f for f in forms if (f != '7bit' or L < 126) and (f != '16bit' or L < 65536)]
+    form = forms[c.choose(len(forms), 'form')]
+    op = P.get('long_opcode', 2)
+    nfrag = 1 + (c.choose(2, 'split') if P.get('long_split', True) and L >= 2 else 0)
+    head = [c.byte('lh%d' % i) for i in range(min(L, 2))]
+    tail = [c.byte('lt%d' % i) for i in range(min(max(L - 2, 0), 2))]
+    if op == 1 and c.concrete is None:
+        import z3
+        for b in head + tail:
+            c.assume(z3.ULT(b.e, 0x80))
+    if op == 1 and c.concrete is not None:
+        head = [b & 0x7F for b in head]
+        tail = [b & 0x7F for b in tail]
+    mid = [0x30 + (i % 10) for i in range(L - len(head) - len(tail))]
+    payload = head + mid + tail
+
+    def hdr(b0, n):
+        if form == '7bit':
+            return [b0, n]
+        if form == '16bit':
+            return [b0, 126, n >> 8, n & 255]
+        return [b0, 127] + list(n.to_bytes(8, 'big'))
+    if nfrag == 1:
+        frames = hdr(0x80 | op, L) + payload
+    else:
+        k = L // 2
+        frames = hdr(op, k) + payload[:k] + hdr(0x80, L - k) + payload[k:]
+    return frames + [0x81, 0x01, 0x7A], 'long:%d:%s:%d' % (L, form, nfrag)
+
+
 def build_stream(c, P):
     """prefix (concrete) ++ N symbolic bytes, optionally constrained"""
     pre = list(bytes.fromhex(P.get('prefix', '')))
@@ -90,6 +129,8 @@ def run_recv(c, P):
     tcls = None
     if P.get('family'):
         stream, tcls = build_family(c, P)
+    elif P.get('long_frame'):
+        stream, tcls = build_long_frame(c, P)
     elif P.get('ping_sweep'):
         stream = build_ping_sweep(c, P)
         tcls = 'plen%d' % (len(stream) - 2 - len(P.get('suffix', '')) // 2)
